@@ -61,14 +61,29 @@ func genC03(x *Ctx) *c03Scen {
 	}
 	perm := tp.Perm(len(roots))
 	rid := 0
+	// crowded: many routes of the same depth over few segment kinds, so that far more than eight
+	// candidates are eligible for one URL (several slices in the routers are preallocated for eight)
+	crowded := tp.Chance(80)
+	if crowded {
+		maxRoutes = 24
+	}
+	crowdSegs := []string{"a", "{v}", "{v:[0-9]+}", "{v:[a-z]+}"}
 	tp.Repeat(1, maxSvc, 650, func(i int) {
 		sp := SvcSpec{ID: i, Root: roots[perm[i]], Dynamic: true}
 		seen := map[string]bool{}
-		tp.Repeat(1, maxRoutes, 700, func(int) {
+		minRoutes, more := 1, 700
+		if crowded && i == 0 {
+			minRoutes, more = 10, 900
+		}
+		tp.Repeat(minRoutes, maxRoutes, more, func(int) {
 			depth := tp.Range(0, 3)
 			var segs []string
 			for d := 0; d < depth; d++ {
 				segs = append(segs, c03Segs[tp.G(len(c03Segs))])
+			}
+			if crowded && i == 0 {
+				depth = 2
+				segs = []string{crowdSegs[tp.G(4)], crowdSegs[tp.G(4)]}
 			}
 			if depth > 0 && sc.Router == "curly" && tp.Chance(150) {
 				// custom verb on the last segment (CurlyRouter only): /jobs/{id}:run next to /jobs/all:run
